@@ -163,6 +163,13 @@ fn run_on_worker(t: &str, op: &str) -> String {
 }
 
 fn run_op(op: &str) -> String {
+    // `~ms/OP`: wait ms milliseconds, then run OP (to place a call inside another call's window)
+    if let Some(rest) = op.strip_prefix('~') {
+        if let Some((ms, inner)) = rest.split_once('/') {
+            std::thread::sleep(std::time::Duration::from_millis(ms.parse().unwrap_or(0)));
+            return run_op(inner);
+        }
+    }
     if let Some(rest) = op.strip_prefix('@') {
         if let Some((t, inner)) = rest.split_once('/') {
             return run_on_worker(t, inner);
